@@ -174,6 +174,17 @@ func runC12(o *hx.Out, r *hx.Rand, thorough bool) {
 		for k := 0; k <= len(reg); k++ {
 			if k > 0 {
 				d := mkDesc(reg[k-1], l)
+				if it%2 == 1 {
+					// registered through the decorating helper with interceptors that only pass on: every name
+					// must still resolve to its own handler
+					d = grpchan.InterceptServer(d,
+						func(ctx context.Context, req interface{}, info *grpc.UnaryServerInfo, h grpc.UnaryHandler) (interface{}, error) {
+							return h(ctx, req)
+						},
+						func(srv interface{}, ss grpc.ServerStream, info *grpc.StreamServerInfo, h grpc.StreamHandler) error {
+							return h(srv, ss)
+						})
+				}
 				ipc.RegisterService(d, &hx.Svc{})
 				hm.RegisterService(d, &hx.Svc{})
 			}
